@@ -92,6 +92,28 @@ pub fn decode_seq(u: &mut Unstructured, cap: usize) -> SeqDesc {
     }
 }
 
+/// Long skewed sequences: 4096*a dense values followed by a sparse tail, with
+/// `u` chosen so that the last inventory entry of the selector on the upper
+/// bits spans 2^k - 1, 2^k or 2^k + 1 bits (k in 16..=21): the regimes of the
+/// 16/32/64-bit subinventories, which uniform sequences never reach.
+pub fn skewed_seq(j: u64) -> SeqDesc {
+    let k = 16 + (j % 6) as u32;
+    let delta: i64 = [0, -1, 1][(j / 6) as usize % 3];
+    let t = [1000usize, 33, 4095, 64][(j / 18) as usize % 4];
+    let a = (1usize << (k - 13)) + (1usize << (k - 15)) + (j / 72) as usize % 3;
+    let n = 4096 * a + t;
+    let dense = 1500 * a;
+    let u = ((1i64 << k) + delta - 1 - t as i64 + dense as i64) as usize;
+    let mut values = Vec::with_capacity(n);
+    for i in 0..4096 * a {
+        values.push(i * dense / (4096 * a));
+    }
+    for i in 0..t {
+        values.push(dense + i * (u - dense) / t);
+    }
+    SeqDesc { values, u, builder: (j % N_BUILDERS as u64) as u8, backend: ((j / 4) % N_BACKENDS as u64) as u8, seed: j }
+}
+
 fn sm(x: &mut u64) -> u64 {
     *x = x.wrapping_add(0x9E37_79B9_7F4A_7C15);
     let mut z = *x;
